@@ -847,6 +847,15 @@ func (e *Engine) explore(st *State) {
 						if e.rule.PredOK(nk) {
 							st.pi[nk] = false
 						}
+					default:
+						// a value whose nil-ness was tested on this path keeps it
+						cv := e.CanonS(fc, rv)
+						if val, known := st.pi["("+minStr("nil", cv)+"=="+maxStr("nil", cv)+")"]; known {
+							nk := "(" + minStr("nil", key) + "==" + maxStr("nil", key) + ")"
+							if e.rule.PredOK(nk) {
+								st.pi[nk] = val
+							}
+						}
 					}
 				}
 			}
